@@ -39,7 +39,23 @@ func encKey(v types.Value, r page.RID) []byte {
 	return enc.SerializeOnlyVal()
 }
 
-func decKey(v types.Value, r page.RID) *types.Value {
+// decKey decodes the encoding of (v, r); when the decoder panics, the answer is a value that differs from v (the
+// round-trip clause then reports it)
+func decKey(v types.Value, r page.RID) (out *types.Value) {
+	defer func() {
+		if x := recover(); x != nil {
+			var d types.Value
+			switch v.ValueType() {
+			case types.Integer:
+				d = types.NewInteger(^v.ToInteger())
+			case types.Float:
+				d = types.NewFloat(math.Float32frombits(math.Float32bits(v.ToFloat()) ^ 1))
+			default:
+				d = types.NewVarchar("\x01decoder panicked: " + fmt.Sprint(x))
+			}
+			out = &d
+		}
+	}()
 	enc := samehada_util.EncodeValueAndRIDToDicOrderComparableVarchar(&v, &r)
 	return samehada_util.ExtractOrgKeyFromDicOrderComparableEncodedVarchar(enc, v.ValueType())
 }
